@@ -19,12 +19,13 @@ Theorem C01_xml_text_roundtrip :
 Proof. exact xml_value_roundtrip. Qed.
 Print Assumptions C01_xml_text_roundtrip.
 
-(* the hypothesis [lexable] is met by the RFC 3629 encoding of every sequence of characters that
-   ly_getutf8 accepts (all Unicode scalar values except C0 controls other than TAB/LF/CR and
-   U+FFFE/U+FFFF) *)
+(* the hypothesis [lexable] is met by the RFC 3629 encoding of every sequence of yang-char
+   (RFC 7950 section 14: Unicode scalar values except C0 controls other than TAB/LF/CR and the
+   noncharacters), which since /repo commit d2cc93f are exactly the characters ly_getutf8 accepts
+   (Utf8P.getutf8_encode_iff) *)
 Theorem C01_xml_text_roundtrip_unicode :
   forall attr endc cps rest,
-    forallb getutf8_accepts_char cps = true -> delim_ok attr endc ->
+    forallb is_yang_char cps = true -> delim_ok attr endc ->
     starts_with cdata_hdr (endc :: rest) = false ->
     let s := flat_map utf8_encode cps in
     xml_value endc (xml_esc attr s ++ endc :: rest) = Ok (s, endc :: rest, forallb (ws_printed attr) s).
@@ -34,7 +35,7 @@ Print Assumptions C01_xml_text_roundtrip_unicode.
 (* non-vacuity: CR, TAB, LF, every escape class, 2-, 3- and 4-byte characters, as content and as attribute value *)
 Example C01_xml_text_roundtrip_example :
   let cps := [97; 38; 60; 62; 34; 39; 9; 10; 13; 10; 13; 233; 8364; 128512; 93; 93; 62; 13] in
-  forallb getutf8_accepts_char cps = true /\
+  forallb is_yang_char cps = true /\
   xml_esc true [97; 13; 9; 10; 98] = [97; 38;35;120;68;59; 38;35;120;57;59; 38;35;120;65;59; 98] /\
   xml_esc false [97; 13; 9; 10; 98] = [97; 38;35;120;68;59; 9; 10; 98] /\
   xml_value 60 (xml_esc false (flat_map utf8_encode cps) ++ [60; 47; 97; 62]) =
